@@ -12,7 +12,8 @@ CONSTPROBE = os.path.join(ROOT, "constprobe")
 CORPUS = os.path.join(ROOT, "corpus")
 
 CONST_EVAL_MARKS = ("evaluation of constant value failed", "evaluation panicked", "undefined behavior", "it is undefined behavior to use this value",
-                    "could not evaluate", "evaluation of `", "dangling", "out-of-bounds", "uninitialized", "index out of bounds", "attempt to ")
+                    "could not evaluate", "evaluation of `", "dangling", "out-of-bounds", "uninitialized", "index out of bounds", "attempt to ",
+                    "constant evaluation is taking a long time", "long_running_const_eval")
 
 
 def cargo_json(argv, cwd):
@@ -85,7 +86,7 @@ def c18_custom(tier, seed):
         rendered = m.get("rendered", "") or ""
         if text.startswith("aborting due to") or text.startswith("could not compile"):
             continue
-        is_const_eval = code == "E0080" or any(k in (text + rendered).lower() for k in CONST_EVAL_MARKS)
+        is_const_eval = code in ("E0080", "long_running_const_eval") or any(k in (text + rendered).lower() for k in CONST_EVAL_MARKS)
         if not is_const_eval:
             inconclusive.append(f"constprobe no longer compiles against this tree ({code}): {text[:200]}")
             continue
